@@ -916,7 +916,11 @@ fn lhs_basic(p: &mut Parser) -> Result<CompletedMarker, CompletedMarker> {
 	} else if p.at(T![import]) || p.at(T![importstr]) || p.at(T![importbin]) {
 		let m = p.start();
 		p.bump();
-		text(p);
+		if Text::can_cast(p.current()) {
+			text(p);
+		} else {
+			p.error_with_recovery_set(TS![]);
+		}
 		m.complete(p, EXPR_IMPORT)
 	} else if let Some(op) = UnaryOperatorKind::cast(p.current()) {
 		let ((), right_binding_power) = op.binding_power();
